@@ -109,6 +109,81 @@ def run(ctx):
                 ctx.counterexample('FORCEWIN vs Unix|IGNORECASE: pattern %r name %r: unix=%r win=%r win(\\\\)=%r win(mixed)=%r' % (
                     pattern, n, u, w, wb, wm), {'pattern': pattern, 'name': n})
                 break
+    # an escaped backslash in the pattern is a separator: respelling any `/` of a pattern as `\\\\` changes nothing under
+    # FORCEWIN, in glob mode (every segment shape, also after `!(...)`) and in fnmatch mode (where both are ordinary
+    # characters that stand for either separator)
+    gq = astgen.Gen(rng, lits='ab.', path=True)
+    pps2 = sorted(set(gq.ppat(long_=False) for _ in range(120 if ctx.quick else 1200))) + ['r:xN(l61)/l62:t', 'r:l78/xN(l61;l78)/l62:t', 'r:xN(l61)/xN(l62):T', 'r:s/xN(l61).l62/q:t']
+    outs2 = m_.run(['pden 0 0 0 1 0 0 %s []' % p for p in pps2])
+    nresp = 0
+    for pp, o in zip(pps2, outs2):
+        pattern = corr.dec(o.split(' ')[0])
+        pos = common.toplevel_separators(pattern)
+        if not pos or '\\' in pattern:
+            continue
+        alt_all = ''.join('\\\\' if i in pos else c for i, c in enumerate(pattern))
+        alt_one = ''.join('\\\\' if i == pos[-1] else c for i, c in enumerate(pattern))
+        al = corr.derived_alphabet(pp)[:2] + ['/', '.']
+        ext = Gm.EXTGLOB if 'x' in pp else 0
+        for mode in ('glob', 'fnmatch'):
+            if mode == 'fnmatch' and ('g' in pp.split(':')[1].split('/') or pattern.startswith('/')):
+                continue
+            mt = (lambda n_, p_: Gm.globmatch(n_, p_, flags=Gm.FORCEWIN | Gm.GLOBSTAR | ext)) if mode == 'glob' else (lambda n_, p_: Fm.fnmatch(n_, p_, flags=Fm.FORCEWIN | ext))
+            for n in astgen.names_upto(al, 4):
+                nresp += 1
+                a0, a1, a2 = mt(n, pattern), mt(n, alt_all), mt(n, alt_one)
+                if not (a0 == a1 == a2):
+                    ctx.counterexample('FORCEWIN %s: name %r: pattern %r gives %r, with the separators written as escaped backslashes %r gives %r, %r gives %r' % (
+                        mode, n, pattern, a0, alt_all, a1, alt_one, a2), {'mode': mode, 'name': n, 'pattern': pattern, 'respelled': [alt_all, alt_one]})
+                    break
+    evals += nresp
+    # the same closure in fnmatch mode (there `/` is an ordinary character that, under Windows rules, stands for either
+    # separator): respelling the separators of the NAME changes nothing, and the verdict is the Unix|IGNORECASE one
+    import re as _re
+
+    def bracket_tells_separators_apart(ast):
+        for mb in _re.finditer(r'b([01])\[([^\]]*)\]', ast):
+            def member(c):
+                for it_ in mb.group(2).split(','):
+                    if it_.startswith('c') and int(it_[1:], 16) == c:
+                        return True
+                    if it_.startswith('r'):
+                        lo, hi = it_[1:].split('-')
+                        if int(lo, 16) <= c <= int(hi, 16):
+                            return True
+                    if it_.startswith('p') and it_[1:] in ('punct', 'graph', 'print', 'ascii'):
+                        return True
+                return False
+            if member(0x2f) != member(0x5c):
+                return True
+        return False
+    gf = astgen.Gen(rng, lits='ab/')
+    fasts = sorted(set(astgen.seq_str(gf.seq()) for _ in range(300 if ctx.quick else 3000))) + ['b0[c2f]', 'l61.b0[c2f].l62', 'b1[c2f].l62', 'b0[r2e-30]', 'b0[c5c]']
+    fouts = m_.run(['den 0 0 0 %s []' % a for a in fasts])
+    known_fb = None
+    nfn = 0
+    for a, o in zip(fasts, fouts):
+        pattern = corr.dec(o.split(' ')[0])
+        if '\\' in pattern:
+            continue
+        ext = Fm.EXTMATCH if 'x' in a else 0
+        al = [c for c in corr.derived_alphabet(a)[:2] if c not in '/\\'] + ['/', '.']
+        for n in astgen.names_upto(al, 4):
+            nfn += 1
+            u = Fm.fnmatch(n, pattern, flags=Fm.FORCEUNIX | Fm.IGNORECASE | ext)
+            w = Fm.fnmatch(n, pattern, flags=Fm.FORCEWIN | ext)
+            wb = Fm.fnmatch(n.replace('/', '\\'), pattern, flags=Fm.FORCEWIN | ext)
+            wm = Fm.fnmatch(n.replace('/', '\\', 1), pattern, flags=Fm.FORCEWIN | ext)
+            if not (u == w == wb == wm):
+                if bracket_tells_separators_apart(a) and ctx.is_known(lambda e: e['id'] == 'C17-fnmatch-bracket-separator'):
+                    known_fb = known_fb or (pattern, n, u, w, wb)
+                else:
+                    ctx.counterexample('FORCEWIN fnmatch: pattern %r name %r: unix|icase=%r win=%r win(name with \\)=%r win(mixed)=%r' % (pattern, n, u, w, wb, wm),
+                                       {'pattern': pattern, 'name': n, 'mode': 'fnmatch'})
+                break
+    if known_fb:
+        ctx.known_finding('C17-fnmatch-bracket-separator', 'fnmatch(%r / its backslash spelling, %r, FORCEWIN): unix|icase=%r win=%r win(\\)=%r' % (known_fb[1], known_fb[0], known_fb[2], known_fb[3], known_fb[4]))
+    evals += nfn
     # escaped backslash in the pattern is a separator under FORCEWIN; drive letters / UNC literal, case-insensitive
     probes = [
         ('a\\\\b', 'a/b', True), ('a\\\\b', 'a\\b', True), ('a\\\\\\\\b', 'a/b', True), ('a/b', 'a\\b', True),
